@@ -17,8 +17,25 @@ impl Clone for Record {
     { unimplemented!() }
 }
 //@items cache/error.rs | enum CacheError, type Result
+impl CacheMetaData {
+//@fn cache/cache.rs | impl CacheMetaData | new | ret=r | safety=C10
+    ensures
+        r.timestamp == 0 && r.cas == cas && r.flags == flags && r.time_to_live == time_to_live, // @ob C04 conc.meta.new.fields
+//@endfn
+//@fn cache/cache.rs | impl CacheMetaData | get_expiration | ret=r | safety=C10
+    ensures
+        r == self.time_to_live, // @ob C04 conc.meta.get_expiration.exact
+//@endfn
+}
+impl Record {
+//@fn cache/cache.rs | impl Record | new | ret=r | safety=C10
+    ensures
+        r.value@ == value@ && r.header.cas == cas && r.header.flags == flags && r.header.time_to_live == expiration && r.header.timestamp == 0, // @ob C04 conc.record.new.fields
+//@endfn
+}
 //@include model.rs
 //@include prelude_conc.rs
+//@include prelude_num.rs
 //@include model_lin.rs
 
 pub trait CacheImplDetails {
@@ -113,7 +130,8 @@ pub mod memc_conc {
     use vstd::prelude::*;
     use super::*;
     use super::{CacheMetaData as CacheMeta, KeyType as CacheKeyType, Record as CacheRecord, SetStatus as CacheSetStatus};
-//@items memcache/store.rs | type Record, type Meta, type SetStatus, type KeyType
+//@consts memcache/store.rs | -
+//@items memcache/store.rs | type Record, type Meta, type SetStatus, type KeyType, struct DeltaParam, type IncrementParam, type DecrementParam, type DeltaResultValueType, struct DeltaResult
 
     // ASSUMED stand-in for `Arc<dyn Cache + Send + Sync>`: every call is one atomic step on the observable
     // content as it is at that moment (C03 for MemoryStore), after which other clients may do anything.
@@ -174,6 +192,21 @@ pub mod memc_conc {
             ensures
                 extends(old(self).store.log(), final(self).store.log()), // @ob C04 memc_conc.prepend.frame
                 one_lp(new_accesses(old(self).store.log(), final(self).store.log()), |a: Access| lin_concat(true, a, old(self).store.now(), key@, new_record, r), old(self).store.now()), // @ob C04 memc_conc.prepend.atomic
+//@endfn
+
+//@fn memcache/store.rs | impl MemcStore | increment | ret=r | mutself | safety=C10
+            ensures
+                extends(old(self).store.log(), final(self).store.log()), // @ob C04 memc_conc.increment.frame
+//@endfn
+//@fn memcache/store.rs | impl MemcStore | decrement | ret=r | mutself | safety=C10
+            ensures
+                extends(old(self).store.log(), final(self).store.log()), // @ob C04 memc_conc.decrement.frame
+//@endfn
+//@fn memcache/store.rs | impl MemcStore | add_delta | ret=r | mutself | safety=C10 | chainrw | resub=([A-Za-z_][A-Za-z0-9_]*)\s*\.parse::<u64>\(\)=>parse_u64(\1) | resub=([A-Za-z_][A-Za-z0-9_.]*)\.to_string\(\)=>u64_to_string(\1)
+            ensures
+                extends(old(self).store.log(), final(self).store.log()), // @ob C04 memc_conc.add_delta.frame
+                one_lp(new_accesses(old(self).store.log(), final(self).store.log()),
+                       |a: Access| lin_delta(increment, a, old(self).store.now(), key@, delta.delta, delta.value, header.time_to_live == 0xffff_ffffu32, r is Ok, if r is Ok { r->Ok_0.value } else { 0 }), old(self).store.now()), // @ob C04 memc_conc.add_delta.atomic
 //@endfn
     }
 }
